@@ -30,7 +30,7 @@ fn c05_o1_capacity_zero_disables() {
     std::mem::forget(lru);
 }
 
-// @verif prop=C05 obl=O2 tier=thorough bounds="3 concrete ids used in the order 0,1,2,0; symbolic capacity in 1..=3"
+// @verif prop=NONE obl=O2 tier=thorough bounds="3 concrete ids used in the order 0,1,2,0; symbolic capacity in 1..=3"
 // @+ encodes="Lru::new, Lru::record_use, Lru::insert, Lru::for_each_evicted, hashlink::LinkedHashSet::insert/pop_front/len"
 /// C05-O2: after eviction at most `capacity` entries remain and the evicted ones are the least recently used, in LRU order.
 #[kani::proof]
